@@ -239,3 +239,86 @@ def note_section(t0: int, t1: int, t2: int, t3: int,
             mxend = ev.end_timestamp.us
     ok = ok and tr.last_note_end_timestamp is not None and tr.last_note_end_timestamp.us == mxend
     return done(ok)
+
+
+# ---------------------------------------------------------------------------------------------
+# C09 integrated: global events through GlobalEventsTrack.from_chart_lines
+# ---------------------------------------------------------------------------------------------
+import chartparse.globalevents as G  # noqa: E402
+
+NG = H.part("VF_NG", 3)
+
+
+def global_section(k0: int, k1: int, k2: int, t0: int, t1: int, t2: int, v0: str, v1: str, v2: str, tb: int) -> bool:
+    """
+    pre: all(0 <= k <= 2 for k in [k0, k1, k2])
+    pre: 0 <= t0 <= t1 <= t2 and tb > 0
+    post: _
+    """
+    kinds = ["LYR", "SEC", "TXT"]
+    ks, ts, vs = [k0, k1, k2][:NG], [t0, t1, t2][:NG], [v0, v1, v2][:NG]
+    lines = []
+    for i in range(NG):
+        lines.append(K.GE(kinds[ks[i]], ts[i], vs[i]))
+        if i == 0:
+            lines.append(K.GARBAGE(0))
+    be = tempo_map(tb)
+    with env(clock()):
+        g = G.GlobalEventsTrack.from_chart_lines(iter(lines), be)
+    got = [g.lyric_events, g.section_events, g.text_events]
+    classes = [G.LyricEvent, G.SectionEvent, G.TextEvent]
+    ok = len(got[0]) + len(got[1]) + len(got[2]) == NG
+    for kind in range(3):
+        want = [i for i in range(NG) if ks[i] == kind]
+        ok = ok and len(got[kind]) == len(want)
+        if not ok:
+            return done(False)
+        for j, i in enumerate(want):
+            e = got[kind][j]
+            ok = ok and type(e) is classes[kind] and e.tick == ts[i] and e.value is vs[i]
+            ok = ok and e.timestamp.us == time_of(tb, ts[i])
+    return done(ok)
+
+
+# ---------------------------------------------------------------------------------------------
+# C14 integrated: inserting unparsable lines anywhere leaves every parsed event unchanged
+# ---------------------------------------------------------------------------------------------
+TRACK = H.part("VF_TRACK", 0)
+
+
+def garbage_locality(g0: bool, g1: bool, g2: bool, g3: bool, g4: bool, dup: bool, ta: int, tb_: int, v: int) -> bool:
+    """
+    pre: 0 < ta < tb_ and v >= 0
+    post: _
+    """
+    gs = [g0, g1, g2, g3, g4]
+    be = tempo_map(ta)
+    if TRACK == 0:
+        base = [K.N(ta, 0, v), K.S(ta, v), K.N(tb_, 1, 0), K.E(tb_, "solo")]
+        parse = lambda ls: InstrumentTrack.from_chart_lines(Instrument.GUITAR, Difficulty.EXPERT, ls, be)  # noqa: E731
+    elif TRACK == 1:
+        base = [K.TS(0, 4), K.B(0, "120000"), K.B(ta, "60500"), K.A(tb_, v)]
+        parse = lambda ls: S.SyncTrack.from_chart_lines(192, ls)  # noqa: E731
+    else:
+        base = [K.GE("SEC", ta, "a"), K.GE("LYR", ta, "b"), K.GE("TXT", tb_, "c"), K.GE("LYR", tb_, "d")]
+        parse = lambda ls: G.GlobalEventsTrack.from_chart_lines(ls, be)  # noqa: E731
+    with_g = []
+    n_g = 0
+    for i in range(5):
+        if gs[i]:
+            with_g.append(K.GARBAGE(i))
+            n_g += 1
+            if dup:
+                with_g.append(K.GARBAGE(i))
+                n_g += 1
+        if i < 4:
+            with_g.append(base[i])
+    log1, log2 = H.CountingLogger(), H.CountingLogger()
+    with env(clock()):
+        with H.patched((T, "logger", log1)):
+            ref = parse(list(base))
+        with H.patched((T, "logger", log2)):
+            got = parse(with_g)
+    ok = len(log1.warnings) == 0 and len(log2.warnings) == n_g
+    ok = ok and got == ref and ref == got
+    return done(ok)
